@@ -1,3 +1,5 @@
+import Std.Data.HashMap
+import Std.Data.HashSet
 import Whv.Driver.Util
 import Whv.Driver.Vaa
 import Whv.Model.Processor
@@ -85,12 +87,12 @@ structure St where
   bodies : List (Bytes × String) := []      -- signing body ↦ digest, for locally observed messages
   ids : List (String × String) := []        -- digest ↦ message id, for locally observed messages
   recTbl : List ((String × String) × String) := []  -- (digest, sig) ↦ recovered address
-  acc : List (String × List String) := []   -- digest ↦ distinct addresses whose observation passed the gate (this lifetime)
+  acc : Std.HashMap String (List String) := {}   -- digest ↦ distinct addresses whose observation passed the gate (this lifetime)
   published : List String := []             -- digests published in the current lifetime
   prevSt : List ISt := []
   prevStS : String := "-"
   prevDb : List (String × String) := []
-  track : List (String × Track) := []
+  track : Std.HashMap String Track := {}
   pendingReqs : Option (List String × Nat) := none   -- model's wanted requests + room, awaiting the `reqs` line
   implRetried : List String := []           -- requests that belong to the observations the implementation re-broadcast in the last tick
   -- counters
@@ -204,20 +206,23 @@ def specPublish (st : St) (id op : String) (extra : List ((String × String) × 
 /-- Lifetime bookkeeping from the implementation's aggregation summary. -/
 def updateLifetimes (st : St) (now : Int) (cur : List ISt) : St := Id.run do
   let mut st := st
-  let curDigests := cur.map (·.digest)
+  let curSet : Std.HashSet String := cur.foldl (fun s e => s.insert e.digest) {}
   -- entries that disappeared: their lifetime ended
-  let gone := (st.prevSt.map (·.digest)).filter fun d => !curDigests.contains d
-  st := { st with acc := st.acc.filter (fun p => !gone.contains p.1),
-                  published := st.published.filter (fun d => !gone.contains d),
-                  snap := st.snap.filter (fun p => !gone.contains p.1),
-                  track := st.track.filter (fun p => !gone.contains p.1),
-                  nExpired := st.nExpired + gone.length }
+  let gone := (st.prevSt.map (·.digest)).filter fun d => !curSet.contains d
+  if !gone.isEmpty then
+    let goneSet : Std.HashSet String := gone.foldl (fun s d => s.insert d) {}
+    st := { st with acc := gone.foldl (fun m d => m.erase d) st.acc,
+                    published := st.published.filter (fun d => !goneSet.contains d),
+                    snap := st.snap.filter (fun p => !goneSet.contains p.1),
+                    track := gone.foldl (fun m d => m.erase d) st.track,
+                    nExpired := st.nExpired + gone.length }
+  let mut tr := st.track
   for e in cur do
-    if (lookupS st.track e.digest).isNone then
-      st := { st with track := (e.digest, { first := now, lastRetry := none }) :: st.track }
-  return st
+    if !tr.contains e.digest then
+      tr := tr.insert e.digest { first := now, lastRetry := none }
+  return { st with track := tr }
 
-def step (st : St) (line : String) : St × List String :=
+def stepLine (st : St) (line : String) : St × List String :=
   let fs := fields line
   match fs with
   | [] => (st, [])
@@ -240,16 +245,6 @@ def step (st : St) (line : String) : St × List String :=
         (st, [s!"spec {id} cleanup-stalled-on-full-request-queue with the outbound request queue full and {due} retransmission(s) due, every cleanup tick took at least {ms} ms (ticks: {(kv rest "all").getD "?"} ms); posting to a full queue must fail immediately, and while the tick runs no observation, message or guardian-set update is handled"])
       else (st, [s!"ok {id}"])
     | _, _ => (st, [s!"diff {id} unparsable stall line"])
-  | "flood" :: id :: rest =>
-    -- SCALE cases: `n` valid observations by one guardian for `n` distinct digests nobody observed locally, handled one after the
-    -- other, written as ONE line (the state summary after the last one). The model does not replay the flood: from here on the case
-    -- is judged by the Spec clauses alone, evaluated on the implementation's own states (as after a `diff`).
-    if st.dead then (st, []) else
-    let iStS := (kv rest "st").getD "-"
-    if (kv rest "res").getD "?" = "panic" then
-      ({ st with dead := true, nPanics := st.nPanics + 1 }, [s!"spec {id} panic-{(((kv rest "site").getD "?").take 40).toString} flood handler panicked"])
-    else
-      ({ st with lines := st.lines + 1, prevSt := parseISt iStS, prevStS := iStS, desync := true }, [s!"ok {id}"])
   | "reqs" :: id :: rs :: _ =>
     if st.dead || st.desync then (st, []) else
     match st.pendingReqs with
@@ -408,8 +403,8 @@ def step (st : St) (line : String) : St × List String :=
               | _, _ => false
             if valid then
               let a := toHex (recA.getD [])
-              let old := (lookupS st.acc h).getD []
-              ({ st with acc := (h, if old.contains a then old else a :: old) :: st.acc.filter (·.1 ≠ h),
+              let old := (st.acc.get? h).getD []
+              ({ st with acc := st.acc.insert h (if old.contains a then old else a :: old),
                          recTbl := ((h, toHex o.sig), a) :: st.recTbl }, [], true)
             else
               -- C03: an observation that fails the gate must leave aggregation state and store untouched
@@ -430,7 +425,7 @@ def step (st : St) (line : String) : St × List String :=
             let h := toHex o.hash
             match lookupS st.snap h with
             | some g =>
-              let have_ := ((lookupS st.acc h).getD []).filter fun a => g.keys.any (toHex · == a)
+              let have_ := ((st.acc.get? h).getD []).filter fun a => g.keys.any (toHex · == a)
               if obsValid ∧ have_.length ≥ quorum g.keys.length ∧ ¬ st.published.contains h ∧ (iSt.any fun e => e.digest == h && e.our) then
                 [s!"spec {id} not-published-at-quorum {have_.length} distinct members of a {g.keys.length}-guardian set have signed {h} and the node observed it, yet nothing was published"]
               else []
@@ -442,9 +437,10 @@ def step (st : St) (line : String) : St × List String :=
             let mut errs : List String := []
             let mut st := st
             let mut tr := st.track
+            let afterMap : Std.HashMap String ISt := iSt.foldl (fun m a => m.insert a.digest a) {}
             for e in st.prevSt do
-              let after := iSt.find? (·.digest == e.digest)
-              let t : Track := (lookupS tr e.digest).getD { first := now, lastRetry := none }
+              let after := afterMap.get? e.digest
+              let t : Track := (tr.get? e.digest).getD { first := now, lastRetry := none }
               let age := now - t.first
               let stored := match lookupS st.ids e.digest with | some k => (iDb.lookup k).isSome | none => false
               let due := decide (age ≥ fiveMinutes) && retryDue now t.lastRetry
@@ -471,14 +467,15 @@ def step (st : St) (line : String) : St × List String :=
                 errs := errs ++ [s!"spec {id} unobserved-entry-not-expired entry {e.digest} never observed locally is still kept {age / 1000000000}s after it appeared"]
               if e.submitted && after.isSome && t.agedTicks60 ≥ 2 then
                 errs := errs ++ [s!"spec {id} completed-entry-not-expired submitted entry {e.digest} still kept after {age / 1000000000}s"]
-              tr := (e.digest, t) :: tr.filter (·.1 ≠ e.digest)
+              tr := tr.insert e.digest t
             st := { st with track := tr }
             return (st, errs)
           | _ => (st, [])
         -- C14: within one lifetime of an entry the retries spent only go up (the 14 400-retry budget bounds the lifetime only then)
         let budgetErr : List String :=
           if unobserved then [] else
-          (st.prevSt.filterMap fun e =>
+          -- (only entries that have spent retries can show a refill; found by linear search among the current entries)
+          ((st.prevSt.filter (·.retry > 0)).filterMap fun e =>
             match iSt.find? (·.digest == e.digest) with
             | some a => if a.retry < e.retry then
                 some s!"spec {id} retry-budget-refilled {op}: entry {e.digest} had spent {e.retry} of its retries, now {a.retry}: with a budget that is refilled the entry never expires"
@@ -516,6 +513,41 @@ def step (st : St) (line : String) : St × List String :=
                 if mo ≠ iOut then [s!"diff {id} {op}: outputs model={mo.take 400} impl={iOut.take 400}"] else [s!"ok {id}"]
               else compare id op mNonReq ms iOut iStS iDbS
             ({ st with desync := v.any (·.startsWith "diff") }, v)
+
+/-- little-endian 4-byte hex of `i` (the prefix that makes the digests of a flood distinct) -/
+def le32hex (i : Nat) : String :=
+  toHex [(i % 256).toUInt8, ((i / 256) % 256).toUInt8, ((i / 65536) % 256).toUInt8, ((i / 16777216) % 256).toUInt8]
+
+/-- SCALE cases: `n` valid observations by one guardian for `n` distinct digests nobody observed locally, handled one after the
+other, are written as ONE `flood` line (digest i = le32(i) ++ `sfx`, the signatures in `sigs`, the state after the last one).
+The driver expands the line into the `n` observation lines it stands for — state not observable in between (`st=? db=?`, as in
+live mode) — runs each through the same model step and Spec code as any other line, and compares model and implementation on
+the state the line carries. -/
+def step (st : St) (line : String) : St × List String :=
+  match fields line with
+  | "flood" :: id :: rest =>
+    if st.dead then (st, []) else
+    if (kv rest "res").getD "?" = "panic" then
+      ({ st with dead := true, nPanics := st.nPanics + 1 }, [s!"spec {id} panic-{(((kv rest "site").getD "?").take 40).toString} flood handler panicked"])
+    else
+    match kvNat rest "n", kv rest "addr", kv rest "sfx", kv rest "sigs", kv rest "now" with
+    | some n, some addr, some sfx, some sigs, some now =>
+      let sg := sigs.splitOn ","
+      if sg.length ≠ n then (st, [s!"diff {id} flood line carries {sg.length} signatures for {n} observations"]) else
+      let (st, errs, _) := sg.foldl (fun (acc : St × List String × Nat) sig =>
+        let (st, errs, i) := acc
+        let l := s!"obs {id} now={now} addr={addr} hash={le32hex i}{sfx} sig={sig} tx=010203 rec={addr} res=ok out=- st=? db=?"
+        let (st', v) := stepLine st l
+        (st', errs ++ v.filter (fun x => !x.startsWith "ok"), i + 1)) (st, [], 0)
+      let iStS := (kv rest "st").getD "-"
+      let iDbS := (kv rest "db").getD "-"
+      let st := { st with prevSt := parseISt iStS, prevStS := iStS }
+      if st.dead || st.desync || !errs.isEmpty then (st, if errs.isEmpty then [] else errs.take 5)
+      else
+        let v := compare id "flood" [] st.m "-" iStS iDbS
+        ({ st with desync := v.any (·.startsWith "diff") }, v)
+    | _, _, _, _, _ => (st, [s!"diff {id} unparsable flood line"])
+  | _ => stepLine st line
 
 def fin (st : St) : List String :=
   [s!"stat lines {st.lines}", s!"stat published {st.nPublish}", s!"stat inbound_stored {st.nInboundStored}",
